@@ -409,6 +409,18 @@ func Worker(t *testing.T) {
 			found[v.Sig] = fv
 			// minimise and write the replay file
 			vals := tape.Values()
+			name := fmt.Sprintf("%s/%s-seed%d-run%d-%016x.json", replayDir, prop, seed, run, hash64(v.Sig))
+			// the unminimised replay is on disk before minimisation starts (a candidate may kill the worker)
+			if err := writeJSON(name, Replay{Property: prop, Seed: seed, Run: run, Tier: tier, Tape: vals, Sig: v.Sig, Detail: v.Detail, LogHash: o.LogHash, Log: o.Log, OrigLen: len(vals)}); err == nil {
+				fv.Replay = name
+				if outPath != "" {
+					if f, err := os.OpenFile(outPath+".found", os.O_APPEND|os.O_CREATE|os.O_WRONLY, 0o644); err == nil {
+						b, _ := json.Marshal(fv)
+						f.Write(append(b, '\n'))
+						f.Close()
+					}
+				}
+			}
 			min, mo := vals, o
 			if !c.NoShrink && shrinkBudget > 0 {
 				min, mo = shrink(t, c, tier, vals, v.Sig, shrinkBudget)
@@ -417,7 +429,6 @@ func Worker(t *testing.T) {
 				min, mo = vals, o
 			}
 			rp := Replay{Property: prop, Seed: seed, Run: run, Tier: tier, Tape: min, Sig: v.Sig, Detail: detailOf(mo, v.Sig), LogHash: mo.LogHash, Log: mo.Log, Minimal: len(min) < len(vals), OrigLen: len(vals)}
-			name := fmt.Sprintf("%s/%s-seed%d-run%d-%016x.json", replayDir, prop, seed, run, hash64(v.Sig))
 			if err := writeJSON(name, rp); err == nil {
 				fv.Replay = name
 			}
